@@ -258,7 +258,20 @@ def cases(ctx):
                     b = with_ack(b)
                 yield {"pair": [older, newer], "steps": STATES["child"][:2] + [a, b, ["rx", f"1;0;2;{k // 4 % 2};2;\n"]]}
     ctx.exhaustive["type-table-and-2-step-cases"] = count
-    from ..histories import HistoryGen
+    from ..histories import HistoryGen, dictionary_payloads
+
+    # dictionary payloads (string constants of the handler modules) as the value of every value type of the older protocol
+    candidates = [c for c in dictionary_payloads()[: ctx.pick(80, 600)] if ";" not in c]
+    for older, newer in PAIRS:
+        for start in range(0, len(candidates), 10):
+            if not ctx.mine():
+                continue
+            steps = list(STATES["child"][:2])
+            for payload in candidates[start:start + 10]:
+                for t in range(0, SETREQ_MAX[older] + 1):
+                    steps.append(["rx", f"1;0;1;0;{t};{payload}\n"])
+                    steps.append(["rx", f"1;0;2;0;{t};\n"])
+            yield {"pair": [older, newer], "steps": steps}
 
     for i in range(ctx.pick(1500, 600000) // ctx.shard_count):
         older, newer = PAIRS[i % len(PAIRS)]
